@@ -114,7 +114,10 @@ class Formulation:
             self.ub.append(ub)
         return self.names[key]
 
-    def row(self, coefs, lo, hi):
+    def row(self, coefs, lo, hi, slack=0.0):
+        if slack:
+            lo = lo - slack * (1.0 + abs(lo)) if lo > -INF else lo
+            hi = hi + slack * (1.0 + abs(hi)) if hi < INF else hi
         self.rows.append((dict(coefs), lo, hi))
 
     @property
@@ -126,7 +129,7 @@ def nom_of(s, c):
     return s["nominal"][c] if len(s["nominal"]) > 1 else s["nominal"][0]
 
 
-def build(inst, k, history):
+def build(inst, k, history, slack=0.0):
     """documented subproblem of the k-th priority (index into priorities_of(inst)).
     `history[k']` for k' < k: dict with 'eps' {gi: [member arrays]}, 'results' [member dicts], 'obj'."""
     mode = inst["mode"]
@@ -248,7 +251,7 @@ def build(inst, k, history):
                 raise ValueError("retained objective of order 2 is not linear")
             for j, a in term_form(term).items():
                 row[j] = row.get(j, 0.0) + coef * a
-        F.row(row, lo, hi)
+        F.row(row, lo, hi, slack)
 
     cr = opts.get("constraint_relaxation", 0.0)
     fix = bool(opts.get("fix_minimized_values", False))
@@ -290,9 +293,9 @@ def build(inst, k, history):
                                 v = s["vars"][c]
                                 val = h["results"][m][v][i if s["path"] else s["ti"]]
                                 if fix and rel == 0.0:
-                                    F.row({fi: 1.0 / nom}, val / nom, val / nom)
+                                    F.row({fi: 1.0 / nom}, val / nom, val / nom, slack)
                                 else:
-                                    F.row({fi: 1.0 / nom}, -INF, (val + rel) / nom + cr)
+                                    F.row({fi: 1.0 / nom}, -INF, (val + rel) / nom + cr, slack)
                             else:
                                 tm = target_matrix(s.get("tmin"), size, T if s["path"] else None, -INF)
                                 tM = target_matrix(s.get("tmax"), size, T if s["path"] else None, INF)
@@ -304,7 +307,7 @@ def build(inst, k, history):
                                 if lo > hi:  # numerical crossing: the documented row is consistent
                                     lo = hi = 0.5 * (lo + hi)
                                 if lo > -INF or hi < INF:
-                                    F.row({fi: 1.0 / nom}, lo, hi)
+                                    F.row({fi: 1.0 / nom}, lo, hi, slack)
         else:
             val = h["obj"]
             if fix:
@@ -355,7 +358,7 @@ def solve(F):
         bounds = [(None if l == -INF else l, None if u == INF else u) for l, u in zip(F.lb, F.ub)]
         r = linprog(c, A_ub=Aub.tocsr()[:nu] if nu else None, b_ub=bub if nu else None,
                     A_eq=Aeq.tocsr()[:ne] if ne else None, b_eq=beq if ne else None, bounds=bounds,
-                    method="highs", options={"primal_feasibility_tolerance": 1e-9, "dual_feasibility_tolerance": 1e-9})
+                    method="highs", options={"primal_feasibility_tolerance": 1e-7, "dual_feasibility_tolerance": 1e-9})
         if r.status == 0:
             return "optimal", float(r.fun) + F.const, np.array(r.x)
         if r.status == 2:
@@ -384,13 +387,28 @@ def solve(F):
         g.append(e)
         lbg.append(lo)
         ubg.append(hi)
+    lbx = np.array(F.lb, dtype=float)
+    ubx = np.array(F.ub, dtype=float)
+    nlp = {"x": x, "f": f, "g": ca.vertcat(*g)}
+    x0 = np.clip(np.zeros(n), lbx, ubx)
     with quiet_fd():
-        S = ca.nlpsol("s", "ipopt", {"x": x, "f": f, "g": ca.vertcat(*g)},
+        try:
+            Q = ca.qpsol("q", "qpoases", nlp, {"printLevel": "none", "error_on_fail": False})
+            r = Q(x0=x0, lbx=lbx, ubx=ubx, lbg=lbg, ubg=ubg)
+            if Q.stats()["success"]:
+                return "optimal", float(r["f"]), np.array(r["x"]).ravel()
+        except Exception:
+            pass
+        S = ca.nlpsol("s", "ipopt", nlp,
                       {"print_time": False, "ipopt": {"print_level": 0, "tol": 1e-10, "sb": "yes"}})
-        r = S(x0=np.clip(np.zeros(n), F.lb, F.ub), lbx=F.lb, ubx=F.ub, lbg=lbg, ubg=ubg)
+        r = S(x0=x0, lbx=lbx, ubx=ubx, lbg=lbg, ubg=ubg)
     st = S.stats()
     if st["success"]:
         return "optimal", float(r["f"]), np.array(r["x"]).ravel()
     if "Infeasible" in st["return_status"]:
-        return "infeasible", None, None
+        # IPOPT reports spurious infeasibility on tight retained rows: confirm with an LP feasibility solve
+        G = Formulation()
+        G.names, G.lb, G.ub, G.rows = F.names, F.lb, F.ub, F.rows
+        st2, _, _ = solve(G)
+        return ("infeasible" if st2 == "infeasible" else "fail"), None, None
     return "fail", None, None
